@@ -7,6 +7,7 @@ import sys
 import tempfile
 
 prop = sys.argv[1]
+CHECK = os.path.join(os.path.dirname(os.path.dirname(os.path.abspath(__file__))), "check")   # the tree this helper lives in
 tmp = tempfile.mkdtemp(prefix="pyc-mut-", dir="/var/tmp")
 dst = os.path.join(tmp, "repo")
 try:
@@ -22,7 +23,7 @@ try:
             sys.exit(3)
         open(p, "w").write(s.replace(old, new, 1))
     env = dict(os.environ, VERIF_REPO=dst)
-    r = subprocess.run(["/verif/check", prop] + sys.argv[5:] if sys.argv[2] != "--patch" else ["/verif/check", prop] + sys.argv[4:],
+    r = subprocess.run([CHECK, prop] + sys.argv[5:] if sys.argv[2] != "--patch" else [CHECK, prop] + sys.argv[4:],
                        env=env, capture_output=True, text=True)
     out = [l for l in (r.stdout + r.stderr).splitlines() if not l.startswith("KNOWN-FINDING")]
     print("\n".join(out[-6:]))
